@@ -298,6 +298,42 @@ fn rfc3339(b: &mut Builder, ns: i128) -> String {
 /// or local time with a numeric offset of either sign, whole hours or not (-03:30, +05:45, -09:30,
 /// +14:00, -23:59, ...). With `loose` also the spellings RFC 3339 merely tolerates (lower-case t and z,
 /// a space for the T, the unknown-offset form -00:00).
+/// JSON values of every type and numeric shape a claims member can be given (JWT-style numeric dates
+/// among them: integers, fractions and exponents of either sign, beyond 64 bits, beyond f64)
+pub const CLAIM_VALUE_ZOO: [&str; 44] = [
+    "0", "1", "-1", "1.5", "-1.5", "-0.25", "0.5", "-1e3", "1e3", "1E400", "-1E400", "1e-400", "-1e-12", "-0.0", "0.0", "1767225600", "1767225600.5", "-1767225600.5",
+    "18446744073709551616", "-9223372036854775809", "253402300800", "-377705116800", "9007199254740993", "1e19", "-1e19", "true", "false", "[]", "{}",
+    "[\"2026-01-01T00:00:00Z\"]", "{\"secs\":1,\"nanos\":0}", "\"\"", "\" \"", "\"0\"", "\"-1.5\"", "\"2026-01-01\"", "\"2026-01-01T00:00:00\"", "\"T\"", "\"9999-12-31T23:59:60Z\"",
+    "\"2026-02-30T00:00:00Z\"", "\"\\u0000\"", "\"2026-01-01T00:00:00Z \"", "\"+002026-01-01T00:00:00Z\"", "[null,null,null,null,null,null,null]",
+];
+
+/// JSON texts that are not a claims object, or whose members have values of another type: single
+/// members from the zoo, and arrays shaped like a positional encoding of the seven claims
+pub fn odd_claim_documents(b: &mut Builder, per_member: usize) -> Vec<String> {
+    let mut out = Vec::new();
+    for name in ["iss", "sub", "aud", "exp", "nbf", "iat", "jti"] {
+        for _ in 0..per_member {
+            let v = CLAIM_VALUE_ZOO[b.rng.usize_below(CLAIM_VALUE_ZOO.len())];
+            out.push(if b.rng.bool() { format!("{{\"{name}\":{v}}}") } else { format!("{{\"iss\":\"a\",\"{name}\":{v},\"exp\":\"2030-01-01T00:00:00Z\"}}") });
+        }
+    }
+    // arrays: the seven claims by position, strings / timestamps / nulls, and neighbouring lengths
+    let st = ["null", "\"a\"", "\"https://issuer\""];
+    let tt = ["null", "\"2030-01-01T00:00:00Z\"", "\"2020-01-01T00:00:00+02:00\""];
+    for _ in 0..4 {
+        let e: Vec<&str> = (0..7).map(|i| if (3..6).contains(&i) { tt[b.rng.usize_below(3)] } else { st[b.rng.usize_below(3)] }).collect();
+        out.push(format!("[{}]", e.join(",")));
+        out.push(format!("[{}]", e[..6].join(",")));
+        out.push(format!("[{},null]", e.join(",")));
+    }
+    for len in 0..10 {
+        out.push(format!("[{}]", vec!["null"; len].join(",")));
+    }
+    out.push("[[],[],[],[],[],[],[]]".into());
+    out.push("[{\"iss\":\"a\"}]".into());
+    out
+}
+
 pub fn rfc3339_with(b: &mut Builder, ns: i128, loose: bool) -> String {
     let ts = jiff::Timestamp::from_nanosecond(ns).unwrap();
     let base = ts.to_string(); // e.g. 2026-09-21T10:00:00.123Z
@@ -475,6 +511,9 @@ impl Scenario for C14 {
             }
             let json = format!("{{{}}}", members.join(","));
             b.push(Step::Codec { case: CodecCase::RegForeign { json, must_accept: true } });
+        }
+        for json in odd_claim_documents(&mut b, 6) {
+            b.push(Step::Codec { case: CodecCase::RegForeign { json, must_accept: false } });
         }
         for bad in ["[]", "null", "\"iss\"", "{", "{\"iss\":\"a\"", "", "{\"iss\":\"a\"} x", "{\"exp\":\"2026-01-01T00:00:00\"}", "{\"exp\":\"2026-13-01T00:00:00Z\"}"] {
             b.push(Step::Codec { case: CodecCase::RegForeign { json: bad.to_string(), must_accept: false } });
